@@ -193,10 +193,10 @@ def build_dynamic(r):
     bo = 'little' if le else 'big'
     w = 4 if cls == 32 else 8
     rela = r.random() < 0.5
-    nsym = r.choice([1, 2, 3, 6, 10])
-    nundef = min(r.choice([0, 1, 2, nsym]), nsym)
+    nsym = r.choice([1, 2, 3, 6, 10, 10, 37, 70])      # long chains too (one bucket, dozens of symbols)
+    nundef = min(r.choice([0, 1, 2, nsym if nsym <= 10 else 3]), nsym)
     names = gen_names(r, nsym)
-    nb = r.choice([1, 2, 3, 5])
+    nb = r.choice([1, 2, 3, 5]) if nsym <= 10 else r.choice([1, 1, 2])
     bloom_size = r.choice([1, 2, 3, 4])
     bloom_shift = r.choice([5, 6, 13])
     unh = names[:nundef]
@@ -371,7 +371,8 @@ def build_dynamic(r):
         tags += [(36, va1(place['.relr.dyn'][0])), (35, len(relr)), (37, w)]
     tags += [(25, va2(init_off)), (27, 2 * w), (21, 0)]
     r.shuffle(tags)
-    tags.append((0, 0))
+    # the terminator is recognised by its tag alone (gABI: the value of a DT_NULL entry is ignored)
+    tags.append((0, r.choice([0, 0, 0, 0x1234, (1 << (8 * w)) - 1])))
     junk = [(r.choice([1, 6, 25]), r.getrandbits(16)) for _ in range(r.choice([0, 1, 3]))] + [(0, 0)]
     if r.random() < 0.3:
         junk = []                   # the terminator is the last entry: the table exactly fills section and segment
@@ -463,6 +464,7 @@ def build_dynamic(r):
     rev = {v: k for k, v in soff.items()}
     truth = dict(tags=[[t, v] for t, v in tags], strings=[[t, rev[v]] for t, v in tags if t in strs],
                  symbols=[['', 0]] + [[nm, 0 if i < nundef else 0x2000 + 16 * i] for i, nm in enumerate(order)], rel=truth_rel)
+    truth['hashed'] = bool(have_gnu or have_sysv)
     desc = dict(cls=cls, little=le, rela=rela, nsym=ntot, have_gnu=have_gnu, have_sysv=have_sysv, relr=bool(relr),
                 ntags=len(tags), libs=len(libs), mips64=mips64, truth=truth)
     return bytes(body), desc
